@@ -45,6 +45,7 @@ type client struct {
 	disposed   map[int]bool
 	liveCtx    map[int]bool // context created (response ok) and dispose not yet answered
 	protoErr   string
+	batch      *[]byte // non-nil while sendBatch collects packets
 	t0         time.Time
 
 	outq      chan []byte // nil element = close stdin
@@ -118,6 +119,26 @@ func (c *client) send(cmd string, key int, value map[string]interface{}, isCtx, 
 	return c.sendLocked(cmd, key, value, isCtx, plug, bad)
 }
 
+// sendBatch writes several requests for one key with a single write (they
+// reach the service's decode loop in one read)
+func (c *client) sendBatch(cmds []string, key int) []*reqInfo {
+	c.mu.Lock()
+	defer c.mu.Unlock()
+	hold := c.batch
+	c.batch = &[]byte{}
+	var out []*reqInfo
+	for _, cmd := range cmds {
+		ri, _ := c.sendLocked(cmd, key, map[string]interface{}{"command": cmd, "key": key}, false, false, "")
+		out = append(out, ri)
+	}
+	buf := *c.batch
+	c.batch = hold
+	if len(buf) > 0 {
+		c.outq <- buf
+	}
+	return out
+}
+
 func (c *client) sendLocked(cmd string, key int, value map[string]interface{}, isCtx, plug bool, bad string) (*reqInfo, bool) {
 	if c.closed || c.dead {
 		return nil, false
@@ -144,7 +165,11 @@ func (c *client) sendLocked(cmd string, key int, value map[string]interface{}, i
 	case "dispose":
 		c.disposed[key] = true
 	}
-	c.outq <- encodePacket(packet{id: id, isRequest: true, value: value})
+	if c.batch != nil {
+		*c.batch = append(*c.batch, encodePacket(packet{id: id, isRequest: true, value: value})...)
+	} else {
+		c.outq <- encodePacket(packet{id: id, isRequest: true, value: value})
+	}
 	return ri, true
 }
 
